@@ -352,6 +352,37 @@ def m_str_index_range(ex, st, args, dest_ty, fname):
     return cases
 
 
+def _total_bytes(cs):
+    n = 0
+    for c in cs:
+        n = n + utf8_len(c)
+    return n
+
+
+def m_str_index_range_to(ex, st, args, dest_ty, fname):
+    """<str as Index<RangeTo<usize>>>::index  (s[..b])"""
+    b = args[1][1][0]
+    return m_str_index_range(ex, st, [args[0], ("agg", (0, b))], dest_ty, fname)
+
+
+def m_str_index_range_from(ex, st, args, dest_ty, fname):
+    """<str as Index<RangeFrom<usize>>>::index  (s[a..])"""
+    a = args[1][1][0]
+    cs = str_chars(ex.deref(args[0], st))
+    return m_str_index_range(ex, st, [args[0], ("agg", (a, _total_bytes(cs)))], dest_ty, fname)
+
+
+def m_str_get_range_to(ex, st, args, dest_ty, fname):
+    b = args[1][1][0]
+    return m_str_get_range(ex, st, [args[0], ("agg", (0, b))], dest_ty, fname)
+
+
+def m_str_get_range_from(ex, st, args, dest_ty, fname):
+    a = args[1][1][0]
+    cs = str_chars(ex.deref(args[0], st))
+    return m_str_get_range(ex, st, [args[0], ("agg", (a, _total_bytes(cs)))], dest_ty, fname)
+
+
 def m_str_get_range(ex, st, args, dest_ty, fname):
     """str::get(a..b): Some(slice) when both offsets are char boundaries in range, else None."""
     a, b = args[1][1]
@@ -538,6 +569,10 @@ COMMON = [
     M(r"^char::methods::<impl char>::to_ascii_lowercase$", m_to_ascii_lowercase),
     M(r"^<str as Index<std::ops::Range<usize>>>::index$", m_str_index_range),
     M(r"^core::str::<impl str>::get::<std::ops::Range<usize>>$", m_str_get_range),
+    M(r"^core::str::<impl str>::get::<RangeTo<usize>>$", m_str_get_range_to),
+    M(r"^core::str::<impl str>::get::<std::ops::RangeFrom<usize>>$", m_str_get_range_from),
+    M(r"^<(str|String) as Index<RangeTo<usize>>>::index$", m_str_index_range_to),
+    M(r"^<(str|String) as Index<std::ops::RangeFrom<usize>>>::index$", m_str_index_range_from),
     M(r"^core::str::<impl str>::trim_end_matches::<char>$", m_trim_end_matches_char),
     M(r"^core::str::<impl str>::trim_start_matches::<char>$", m_trim_start_matches_char),
     M(r"^core::str::<impl str>::ends_with::<char>$", m_ends_with_char),
